@@ -9,7 +9,9 @@ package parsim
 import (
 	"encoding/json"
 	"fmt"
+	"math"
 	"os"
+	"runtime"
 	"runtime/debug"
 	"runtime/metrics"
 	"slices"
@@ -42,6 +44,7 @@ type Step struct {
 	Exec      bool   `json:"exec"`
 	AST       bool   `json:"ast"`
 	Tree      bool   `json:"tree"`
+	Pretty    bool   `json:"pretty,omitempty"` // also print the tree through PrettyPrint
 	AbortPred int    `json:"abort_pred,omitempty"`
 	AbortAct  int    `json:"abort_act,omitempty"`
 	// selectors: resolved at run time into AbortPred/AbortAct = 1 + sel mod
@@ -61,6 +64,89 @@ type Prog struct {
 	// and Period=65536 it probes everything that counts operations in a
 	// value of type U (the property allows any U the input fits into).
 	Marathon *Marathon `json:"marathon,omitempty"`
+}
+
+// Sweep: token buffers grow and are replayed into at power-of-two sizes and
+// at the Size option; a mistake there shows only when a multi-token write
+// straddles the boundary, i.e. for one alignment in many. A sweep takes a
+// repeatable unit, measures how many tokens a repetition adds, and runs every
+// repetition count in a window around the one at which the token count
+// reaches the boundary.
+type Sweep struct {
+	Prefix   string `json:"prefix"`
+	Unit     string `json:"unit"`
+	Tail     string `json:"tail"`
+	Boundary int    `json:"boundary"`
+	Width    int    `json:"width"`
+}
+
+// sweepInputs probes the token yield of the unit and returns the inputs of
+// the window (nil if the unit does not repeat productively).
+func sweepInputs(g simrt.Grammar, cfg simrt.InstCfg, sw *Sweep) []string {
+	count := func(n int) int {
+		in := strings.Repeat(sw.Unit, n) + sw.Tail
+		inst := g.New(simrt.InstCfg{U: 2}, in)
+		var ntok int
+		func() {
+			defer func() { recover() }()
+			if ok, _, _ := inst.Parse(-1); ok {
+				ntok = len(inst.Tokens())
+			}
+		}()
+		return ntok
+	}
+	t8 := count(8)
+	var ms0, ms1, ms2 runtime.MemStats
+	runtime.ReadMemStats(&ms0)
+	t24 := count(24)
+	runtime.ReadMemStats(&ms1)
+	count(96)
+	runtime.ReadMemStats(&ms2)
+	per := (t24 - t8) / 16
+	if per < 1 || t8 == 0 {
+		return nil
+	}
+	// Memoisation stores a copy of the tokens of every rule application; for
+	// deeply (e.g. right-) recursive grammars that is quadratic in the input.
+	// Where four times the input costs far more than four times the
+	// allocation, only the small boundaries are swept.
+	if a, b := ms1.TotalAlloc-ms0.TotalAlloc, ms2.TotalAlloc-ms1.TotalAlloc; a > 0 && b > 7*a && sw.Boundary > 1024 {
+		sw.Boundary = 1024
+	}
+	// Enough repetitions to carry the token count past the boundary, and a
+	// growing number of copies of the prefix unit in front: every extra copy
+	// shifts all later token indices, so successive inputs approach the same
+	// boundary from successive alignments (the repetition count is varied a
+	// little as well, for what is written after the repeated block).
+	n0 := (sw.Boundary-t8)/per + 8 + 4
+	if n0 < 1 {
+		n0 = 1
+	}
+	if (n0+8)*len(sw.Unit)+sw.Width*len(sw.Prefix) > 400_000 {
+		return nil
+	}
+	var out []string
+	for j := 0; j < sw.Width; j++ {
+		out = append(out, strings.Repeat(sw.Prefix, j)+strings.Repeat(sw.Unit, n0+j%5)+sw.Tail)
+	}
+	return out
+}
+
+func genSweep(r *simrt.SplitMix64) (*GrammarInfo, *Sweep) {
+	if len(repeatableNames) == 0 {
+		return nil, nil
+	}
+	g := byName[repeatableNames[r.Intn(len(repeatableNames))]]
+	units := repeatable[g.Name]
+	sw := &Sweep{Unit: units[r.Intn(len(units))], Boundary: []int{256, 1024, 4096, 4096, 4096, 8192, 8192, 8192, 1024, 4096, 8192, 32768}[r.Intn(12)], Width: 32}
+	if r.Chance(1, 2) {
+		sw.Unit += units[r.Intn(len(units))]
+	}
+	sw.Prefix = units[r.Intn(len(units))]
+	if r.Chance(1, 2) {
+		sw.Tail = units[r.Intn(len(units))]
+	}
+	return g, sw
 }
 
 type Marathon struct {
@@ -84,6 +170,9 @@ type Case struct {
 	// through the same history (Buffer=…; Reset(); Parse()) side by side
 	History  []string  `json:"history,omitempty"`
 	Marathon *Marathon `json:"c06_marathon,omitempty"`
+	// boundary sweep (c06 and c12): inputs Prefix×j + Unit×n + Tail, j = 0…Width-1,
+	// n large enough for the token count to cross Boundary
+	Sweep *Sweep `json:"sweep,omitempty"`
 	// c12
 	Prog *Prog `json:"prog,omitempty"`
 	// c14
@@ -155,6 +244,48 @@ type JobResult struct {
 
 var workload []GrammarInfo
 var byName = map[string]*GrammarInfo{}
+
+// repeatable[g] = short pool inputs u of grammar g such that u×n is accepted
+// with a token count that grows with n (found once at start-up); boundary
+// sweeps draw their grammar and unit from here
+var repeatable = map[string][]string{}
+var repeatableNames []string
+
+func findRepeatable() {
+	for i := range workload {
+		gi := &workload[i]
+		if gi.Heavy {
+			continue
+		}
+		g := simrt.LookupGrammar(gi.Name)
+		tried := 0
+		for _, u := range gi.Inputs {
+			if len(u) == 0 || len(u) > 12 {
+				continue
+			}
+			if tried++; tried > 24 {
+				break
+			}
+			count := func(n int) (ntok int) {
+				defer func() { recover() }()
+				inst := g.New(simrt.InstCfg{U: 2}, strings.Repeat(u, n))
+				var ok bool
+				_, over := counted(200_000, func() { ok, _, _ = inst.Parse(-1) })
+				if ok && !over {
+					ntok = len(inst.Tokens())
+				}
+				return
+			}
+			if a, b := count(6), count(12); a > 0 && b > a {
+				repeatable[gi.Name] = append(repeatable[gi.Name], u)
+			}
+		}
+		if len(repeatable[gi.Name]) > 0 {
+			repeatableNames = append(repeatableNames, gi.Name)
+		}
+	}
+	slices.Sort(repeatableNames)
+}
 
 // ---------- observations ----------
 
@@ -231,6 +362,11 @@ func doStep(inst simrt.Instance, st Step) (o Obs) {
 	}
 	if st.Tree {
 		o.Tree = inst.TreeString()
+	}
+	if st.Pretty {
+		if pp, ok := inst.(interface{ PrettyTreeString() string }); ok {
+			o.Tree += "\n--pretty--\n" + pp.PrettyTreeString()
+		}
 	}
 	return
 }
@@ -375,7 +511,56 @@ func runC06History(c Case) (out Outcome) {
 	return
 }
 
+// runC06Sweep: the plain memo / no-memo comparison on every input of a
+// boundary sweep.
+func runC06Sweep(c Case) (out Outcome) {
+	out.Stats = map[string]int{}
+	g := simrt.LookupGrammar(c.Grammar)
+	if g == nil {
+		out.Skipped = "unknown grammar " + c.Grammar
+		return
+	}
+	var inputs []string
+	_, over := counted(absBudget, func() { inputs = sweepInputs(g, c.Cfg, c.Sweep) })
+	if over || len(inputs) == 0 {
+		out.Skipped = "sweep unit does not repeat"
+		return
+	}
+	for _, in := range inputs {
+		d := c
+		d.Sweep, d.Input = nil, in
+		o := runC06(d)
+		for k, v := range o.Stats {
+			out.Stats[k] += v
+		}
+		if o.Class != "" {
+			o.Stats = out.Stats
+			o.Detail = fmt.Sprintf("boundary sweep (prefix %q, unit %q, tail %q, token boundary %d): %d-byte input\n", c.Sweep.Prefix, c.Sweep.Unit, c.Sweep.Tail, c.Sweep.Boundary, len(in)) + clip(o.Detail, 1500)
+			return o
+		}
+		if o.Skipped != "" {
+			out.Skipped = o.Skipped
+			return
+		}
+	}
+	out.Stats["boundary_sweeps"] = 1
+	out.Stats["boundary_sweep_inputs"] = len(inputs)
+	out.Nontrivial = true
+	out.Sig = uint64(simrt.NewHash().AddString(c.Grammar).AddString(c.Sweep.Unit).AddString(c.Sweep.Prefix).AddUint(uint64(c.Sweep.Boundary)))
+	return
+}
+
+func clip(s string, n int) string {
+	if len(s) > n {
+		return s[:n] + "…"
+	}
+	return s
+}
+
 func runC06(c Case) (out Outcome) {
+	if c.Sweep != nil {
+		return runC06Sweep(c)
+	}
 	if len(c.History) > 0 || c.Marathon != nil {
 		return runC06History(c)
 	}
@@ -504,6 +689,34 @@ func runMarathon(c Case) (out Outcome) {
 func runC12(c Case) (out Outcome) {
 	if c.Prog != nil && c.Prog.Marathon != nil {
 		return runMarathon(c)
+	}
+	if c.Sweep != nil && c.Prog != nil {
+		g := simrt.LookupGrammar(c.Prog.Grammar)
+		if g == nil {
+			out.Skipped = "unknown grammar"
+			return
+		}
+		var inputs []string
+		_, over := counted(absBudget, func() { inputs = sweepInputs(g, c.Prog.Cfg, c.Sweep) })
+		if over || len(inputs) == 0 {
+			out.Skipped = "sweep unit does not repeat"
+			return
+		}
+		d := c
+		p := *c.Prog
+		p.Steps = nil
+		for _, in := range inputs {
+			p.Steps = append(p.Steps, Step{Input: in, Entry: -1, Exec: true, AST: true, Tree: len(in) < 20000})
+		}
+		d.Prog, d.Sweep = &p, nil
+		out = runC12(d)
+		if out.Class != "" {
+			out.Detail = fmt.Sprintf("boundary sweep (prefix %q, unit %q, tail %q, token boundary %d, %d inputs)\n", c.Sweep.Prefix, c.Sweep.Unit, c.Sweep.Tail, c.Sweep.Boundary, len(inputs)) + clip(out.Detail, 1500)
+			out.Resolved = nil
+		}
+		out.Stats["boundary_sweeps"] = 1
+		out.Stats["boundary_sweep_inputs"] = len(inputs)
+		return
 	}
 	out.Stats = map[string]int{}
 	p := *c.Prog
@@ -737,6 +950,14 @@ func refOnly(c Case) uint64 {
 		if g == nil || len(c.History) > 0 || c.Marathon != nil {
 			return 0
 		}
+		if c.Sweep != nil {
+			refCfg := c.Cfg
+			refCfg.NoMemo = true
+			for _, in := range sweepInputs(g, c.Cfg, c.Sweep) {
+				doStep(g.New(refCfg, in), Step{Input: in, Entry: -1, Exec: true, AST: true, Tree: true})
+			}
+			return 0
+		}
 		st := Step{Input: c.Input, Entry: c.Entry, Exec: true, AST: true, Tree: true}
 		refCfg := c.Cfg
 		refCfg.NoMemo = true
@@ -745,6 +966,13 @@ func refOnly(c Case) uint64 {
 	case "c12":
 		p := *c.Prog
 		if simrt.LookupGrammar(p.Grammar) == nil || p.Marathon != nil {
+			return 0
+		}
+		if c.Sweep != nil {
+			for _, in := range sweepInputs(simrt.LookupGrammar(p.Grammar), p.Cfg, c.Sweep) {
+				q := Prog{Grammar: p.Grammar, Cfg: p.Cfg, Steps: []Step{{Input: in, Entry: -1, Exec: true, AST: true, Tree: len(in) < 20000}}}
+				runFresh(q, 0)
+			}
 			return 0
 		}
 		rh := simrt.NewHash()
@@ -784,7 +1012,70 @@ func pickInput(r *simrt.SplitMix64, g *GrammarInfo) string {
 	if len(g.Inputs) == 0 {
 		return ""
 	}
-	return g.Inputs[r.Intn(len(g.Inputs))]
+	in := g.Inputs[r.Intn(len(g.Inputs))]
+	// scaled inputs: a short pool member repeated a log-uniformly drawn
+	// number of times (plus a pool member as tail), so that input lengths and
+	// token counts are spread over three orders of magnitude and land on both
+	// sides of every buffer-growth boundary
+	if !g.Heavy && r.Chance(1, 12) {
+		base := in
+		for tries := 0; (len(base) == 0 || len(base) > 16) && tries < 12; tries++ {
+			base = g.Inputs[r.Intn(len(g.Inputs))]
+		}
+		if n := len(base); n > 0 && n <= 16 {
+			// the repeated unit is one or two pool members, and a random
+			// prefix shifts every later offset and token index, so that the
+			// same buffer boundary is approached from many alignments
+			unit := base
+			if b2 := g.Inputs[r.Intn(len(g.Inputs))]; len(b2) <= 16 && r.Chance(1, 2) {
+				unit += b2
+			}
+			reps := 1 + int(math.Pow(6000/float64(len(unit)), r.Float()))
+			in = ""
+			if pre := g.Inputs[r.Intn(len(g.Inputs))]; len(pre) <= 24 && r.Chance(2, 3) {
+				in = pre
+			}
+			in += strings.Repeat(unit, reps)
+			if r.Chance(1, 2) {
+				if t := g.Inputs[r.Intn(len(g.Inputs))]; len(t) <= 40 {
+					in += t
+				}
+			}
+		}
+	}
+	return in
+}
+
+// deriveInput makes the next input of a history out of the previous one:
+// a byte-level prefix of it (possibly ending inside a multi-byte rune, i.e.
+// invalid UTF-8), the previous input extended by the tail or the whole of
+// another one, or the previous input with its last byte dropped.
+func deriveInput(r *simrt.SplitMix64, g *GrammarInfo, prev string) string {
+	other := g.Inputs[r.Intn(len(g.Inputs))]
+	if len(other) > 200 {
+		other = other[:200]
+	}
+	switch r.Intn(5) {
+	case 0:
+		if len(prev) > 0 {
+			return prev[:r.Intn(len(prev))]
+		}
+	case 1:
+		if len(prev) > 0 {
+			return prev[:len(prev)-1]
+		}
+	case 2:
+		if len(other) > 0 {
+			return prev + other[r.Intn(len(other)):]
+		}
+	case 3:
+		return prev + other
+	}
+	// a pool member cut at a random byte
+	if len(other) > 0 {
+		return other[:r.Intn(len(other)+1)]
+	}
+	return prev
 }
 
 func pickCfg(r *simrt.SplitMix64, g *GrammarInfo) simrt.InstCfg {
@@ -828,6 +1119,16 @@ func genMarathon(r *simrt.SplitMix64, g *GrammarInfo, period int) *Marathon {
 func genC06(seed uint64, i int) Case {
 	r := simrt.NewRNG(simrt.DeriveN(seed, "c06", i))
 	g := pickGrammar(r)
+	if i%1500 == 5 {
+		if sg, sw := genSweep(r); sw != nil {
+			c := Case{Mode: "c06", Run: i, Grammar: sg.Name, Entry: -1, Cfg: pickCfg(r, sg), Sweep: sw}
+			c.FaultCfg.Den = 64
+			if r.Chance(1, 3) {
+				c.Cfg.Size = sw.Boundary
+			}
+			return c
+		}
+	}
 	c := Case{Mode: "c06", Run: i, Grammar: g.Name, Input: pickInput(r, g), Entry: pickEntry(r, g), Cfg: pickCfg(r, g)}
 	// reused instances: short histories, and long ones whose rare inputs recur
 	// at multiples of 256 and 65 536 steps
@@ -846,6 +1147,9 @@ func genC06(seed uint64, i int) Case {
 				in := pickInput(r, g)
 				for tries := 0; len(in) > 200 && tries < 10; tries++ {
 					in = pickInput(r, g)
+				}
+				if n := len(c.History); n > 0 && r.Chance(1, 4) {
+					in = deriveInput(r, g, c.History[n-1])
 				}
 				c.History = append(c.History, in)
 			}
@@ -890,9 +1194,11 @@ func genProg(r *simrt.SplitMix64, g *GrammarInfo, minSteps, maxSteps int, faults
 	p.Cfg.NoMemo = r.Chance(1, 4)
 	n := minSteps + r.Intn(maxSteps-minSteps+1)
 	for k := 0; k < n; k++ {
-		st := Step{Input: pickInput(r, g), Entry: -1, Exec: r.Chance(2, 3), AST: r.Chance(1, 2), Tree: r.Chance(1, 2)}
+		st := Step{Input: pickInput(r, g), Entry: -1, Exec: r.Chance(2, 3), AST: r.Chance(1, 2), Tree: r.Chance(1, 2), Pretty: r.Chance(1, 4)}
 		if k > 0 && r.Chance(1, 6) {
 			st.Input = p.Steps[r.Intn(k)].Input // repeat an earlier input
+		} else if k > 0 && len(g.Inputs) > 0 && len(p.Steps[k-1].Input) <= 400 && r.Chance(1, 4) {
+			st.Input = deriveInput(r, g, p.Steps[k-1].Input)
 		}
 		if r.Chance(1, 8) {
 			st.Entry = pickEntry(r, g)
@@ -913,6 +1219,21 @@ func genProg(r *simrt.SplitMix64, g *GrammarInfo, minSteps, maxSteps int, faults
 func genC12(seed uint64, i int) Case {
 	r := simrt.NewRNG(simrt.DeriveN(seed, "c12", i))
 	g := pickGrammar(r)
+	if i%800 == 5 {
+		if sg, sw := genSweep(r); sw != nil {
+			g = sg
+			sw.Width = 24
+			cfg := pickCfg(r, g)
+			if cfg.U == 1 && sw.Boundary > 8192 {
+				cfg.U = 0
+			}
+			if r.Chance(1, 2) {
+				cfg.Size = sw.Boundary
+			}
+			p := Prog{Grammar: g.Name, Cfg: cfg}
+			return Case{Mode: "c12", Run: i, Prog: &p, Sweep: sw}
+		}
+	}
 	if i%1500 == 7 || i%200 == 11 {
 		for tries := 0; g.Heavy && tries < 20; tries++ {
 			g = pickGrammar(r)
@@ -960,6 +1281,16 @@ func genC14(seed uint64, i int, race bool, cold bool) Case {
 			maxSteps = 1
 		}
 		p := genProg(r, g, 1, maxSteps, false)
+		// now and then a client's parse or Execute is cut short by a panicking
+		// callback that the client recovers (the same abort in its solo run)
+		if g.HasHost && !cold && r.Chance(1, 5) {
+			k := r.Intn(len(p.Steps))
+			if r.Chance(1, 2) {
+				p.Steps[k].AbortPred = 1 + r.Intn(3)
+			} else {
+				p.Steps[k].AbortAct, p.Steps[k].Exec = 1+r.Intn(3), true
+			}
+		}
 		if j > 0 && r.Chance(1, 2) {
 			for _, q := range c.Clients {
 				if q.Grammar == p.Grammar {
@@ -990,7 +1321,7 @@ func genC14(seed uint64, i int, race bool, cold bool) Case {
 			for k := range p.Steps {
 				if extreme {
 					p.Steps[k].Input = big[r.Intn(len(big))]
-					p.Steps[k].Tree, p.Steps[k].AST = true, true
+					p.Steps[k].Tree, p.Steps[k].AST, p.Steps[k].Pretty = true, true, r.Chance(1, 2)
 					continue
 				}
 				for tries := 0; len(p.Steps[k].Input) > 64 && tries < 20; tries++ {
@@ -1072,6 +1403,10 @@ func TestSim(t *testing.T) {
 		linked[n] = true
 	}
 	workload = slices.DeleteFunc(workload, func(g GrammarInfo) bool { return !linked[g.Name] })
+	for i := range workload {
+		byName[workload[i].Name] = &workload[i]
+	}
+	findRepeatable()
 	for i := range workload {
 		inst := simrt.LookupGrammar(workload[i].Name).New(simrt.InstCfg{}, "")
 		if c, ok := inst.(interface{ Callable() []int }); ok && !slices.Contains(workload[i].Opts, "-inline") {
